@@ -562,6 +562,10 @@ let step st (f : string array) : string list =
   | "bkobs" ->
     let l = (try List.assoc (a 1) st.backups with Not_found -> []) in
     observe_dir st l (a 2 = "1")
+  | "bkhalf" ->
+    (* an interrupted Backup: log files copied, index files not yet.  The directory is not looked at before the Backup
+       that follows, whose result does not depend on what it finds under the names of the source's segments *)
+    (match get_cfg st.s with Err e -> [err e] | Ok _ -> ["ok"])
   | "bkclean" -> st.backups <- List.remove_assoc (a 1) st.backups; ["ok"]
   | "probe" -> probe st (List.tl (Array.to_list f))
   | "loaddir" ->
@@ -1063,7 +1067,7 @@ let run_check (path : string) =
           | Some t when Z.leb m.mtime t -> acc
           | _ -> Some m.mtime) None c.a.live;
       mutated c
-    | ["rmindex"; _] | ["idxcut"; _] | ["gc"] | ["sleepms"; _] | ["bkclean"; _] -> ()
+    | ["rmindex"; _] | ["idxcut"; _] | ["gc"] | ["sleepms"; _] | ["bkclean"; _] | ["bkhalf"; _] -> ()
     | ["migrate"; v] ->
       (match r with
        | "ok" :: _ ->
